@@ -13,6 +13,7 @@ mod hostcall;
 mod pipeline;
 mod prelude;
 mod props;
+mod spsm;
 mod util;
 
 use crate::core::{Cfg, Tier};
